@@ -308,7 +308,7 @@ impl PropImpl for C02 {
         v
     }
     fn budget(&self, tier: Tier) -> Budget {
-        Budget { cases_per_lane: if tier == Tier::Quick { 16000 } else { 200_000 }, tape_max: 700, cpu_s: 20 }
+        Budget { cases_per_lane: if tier == Tier::Quick { 48000 } else { 400000 }, tape_max: 700, cpu_s: 20 }
     }
     fn spaces(&self, tier: Tier) -> Vec<Space> {
         let l = if tier == Tier::Quick { 3 } else { 4 };
